@@ -58,3 +58,26 @@ Definition sw_wrap_txn : Z * Z * ss_op := (1040, 1010, OpUpdate 100 1 0 0 true f
 Definition sw_ok_txns : list (Z * Z * ss_op) :=
   [(1040, 1010, OpCommit 1 1 100 2 1 1048576 1040 true); (1050, 1011, OpWPLock 100 1 5000);
    (1060, 1012, OpCancel 100 1)].
+
+(* C09: a free-storage marker worth 10^10 with free_allocation_settings.read_pool_fraction = 0.1:
+   9*10^9 are transferred from the contract owner into the write pool, 10^9 appear in the
+   recipient's read pool without any transfer. The contract holds exactly the stakes before. *)
+Definition sw_free_conf : ss_conf :=
+  {| cf_tu_ns := 3600000000000; cf_vr := f64_div (f64_of_Z 1) (f64_of_Z 40); cf_slash := f64_div (f64_of_Z 1) (f64_of_Z 10);
+     cf_cancel := f64_div (f64_of_Z 1) (f64_of_Z 5); cf_kill_slash := f64_div (f64_of_Z 1) (f64_of_Z 2);
+     cf_max_wp := 1000000000000; cf_min_wp := 0; cf_max_rp := 1000000000000; cf_min_alloc := 1024; cf_min_blobber_cap := 1024;
+     cf_mccr := 720; cf_min_lock_w := 10; cf_min_lock_r := 10; cf_nvr := 2;
+     cf_free_data := 1; cf_free_parity := 1; cf_free_size := 1048576; cf_free_frac := f64_div (f64_of_Z 1) (f64_of_Z 10);
+     cf_free_max_wp := 1000000000000; cf_free_max_rp := 1000000000000;
+     cf_max_indiv_free := 1000000000000; cf_max_total_free := 10000000000000;
+     cf_owner := 300; cf_sc := 1000; cf_electra := Some 0; cf_demeter := Some 0 |}.
+
+Definition sw_free_state : ss_state :=
+  {| st_allocs := [];
+     st_blobbers := [sw_blobber 0 false 0 0 1000000000 0; sw_blobber 1 false 0 0 1000000000 0; sw_blobber 2 false 0 0 1000000000 0];
+     st_validators := []; st_rpools := [];
+     st_bals := [(300, 100000000000000); (1000, 15000000000000)];
+     st_assigners := [{| as_id := 700; as_indiv := 100000000000; as_total := 1000000000000; as_redeemed := 0; as_nonces := [] |}];
+     st_reads := []; st_chals := [] |}.
+
+Definition sw_free_txn : Z * Z * ss_op := (1020, 1010, OpFreeAlloc 7 101 700 101 (Some 10000000000) 1 true [0; 1]).
